@@ -136,7 +136,8 @@ impl super::Processor for Ar {
 
             output.write_all(&buf)?;
 
-            let padded_size = size + size % 2;
+            let padded_size = size.checked_add(size % 2)
+                .ok_or_else(|| super::Error::Other(format!("member size {size} is too large")))?;
 
             let mut buf = vec![0; padded_size.try_into().unwrap()];
             input.read_exact(&mut buf)?;
